@@ -52,6 +52,10 @@ class HarnessError(Exception):
     pass
 
 
+class _SkipMinimise(Exception):
+    pass
+
+
 def canon(obj) -> str:
     return json.dumps(obj, sort_keys=True, ensure_ascii=True, separators=(",", ":"), default=repr)
 
@@ -124,6 +128,7 @@ class Check:
     shards = None  # override shard count (e.g. memory-heavy checks)
     rlimit_as = 3 << 30
     sandbox_timeout = None  # seconds; None = execute in the shard process itself
+    minimise = True  # checks with very expensive cases switch the delta debugging of failures off
 
     def on_abnormal(self, case, res, env):
         """child hung (confirmed by a 3x re-run) or died: default = violation with the stack frame as signature"""
@@ -650,6 +655,9 @@ def triage(check, prop, tier, seed, merged, known, env):
         case = f["case"]
         try:
             env.replaying = True
+            if not check.minimise:
+                reproduced = None
+                raise _SkipMinimise()
             if still_fails(case):
                 case = minimise(case, still_fails, min_budget / max(1, len(new[:6])))
                 out = ex.run(case)
@@ -659,6 +667,8 @@ def triage(check, prop, tier, seed, merged, known, env):
                 reproduced = True
             else:
                 reproduced = False
+        except _SkipMinimise:
+            pass
         finally:
             env.replaying = False
         rp = {"property": prop, "seed": seed, "tier": tier, "case": case, "signature": f["signature"],
